@@ -770,6 +770,7 @@ pub fn run(ctx: &Ctx) {
   let x_dup = ctx.excl("cbor_duplicate_literal_keys_greedy");
   let x_alias = ctx.excl("group_rule_aliasing_a_group_rule");
   let x_fwd = ctx.excl("generic_parameter_forwarding");
+  let x_gen2 = ctx.excl("generic_rule_instantiated_with_different_arguments");
   for (jsonm, name) in [(true, "refactor_json"), (false, "refactor_cbor")] {
     let o = gen_opts(ctx, !jsonm);
     search(ctx, name, n, 460, |t: &mut Tape, st: &mut Stats| {
@@ -848,6 +849,10 @@ pub fn run(ctx: &Ctx) {
         }
         if x_nested && !jsonm && crate::c02::nested_opt_table(&s) {
           st.exclude("cbor_optional_table_member_in_nested_map");
+          continue;
+        }
+        if x_gen2 && (crate::c04::generic_rule_instantiated_twice(&s) || crate::c04::generic_rule_instantiated_twice(&r)) {
+          st.exclude("generic_rule_instantiated_with_different_arguments");
           continue;
         }
         if survey_on() {
